@@ -136,7 +136,11 @@ func NewEnvManager(tm *task.Manager, incomingEventCh chan event.Event) *Manager 
 
 						instance.mu.Lock()
 						close(thisEnvCh)
-						delete(instance.pendingTeardownsCh, typedEvent.GetEnvironmentId())
+						// the teardown may already have registered the channel for its next release
+						// request: only forget the one that was just served
+						if instance.pendingTeardownsCh[typedEvent.GetEnvironmentId()] == thisEnvCh {
+							delete(instance.pendingTeardownsCh, typedEvent.GetEnvironmentId())
+						}
 						instance.mu.Unlock()
 
 					} else {
